@@ -197,6 +197,28 @@ pub fn parse_generic_shape(g: &YaccGrammar<u32>, st: &StateTable<u32>, toks: &[u
     t
 }
 
+/// the public (deprecated) `lrpar::action_generictree` as the action of every production: the tree it
+/// builds, in the format of `parse_generic_shape`
+#[allow(deprecated)]
+pub fn parse_action_generictree_shape(g: &YaccGrammar<u32>, st: &StateTable<u32>, toks: &[u32], rk: RecoveryKind) -> Option<String> {
+    use lrpar::Node;
+    let lexer = VecLexer::new(toks);
+    type F<'a> = &'a dyn Fn(RIdx<u32>, &dyn NonStreamingLexer<LT>, Span, std::vec::Drain<AStackType<DefaultLexeme<u32>, Node<DefaultLexeme<u32>, u32>>>, ()) -> Node<DefaultLexeme<u32>, u32>;
+    let f: F = &lrpar::action_generictree::<u32, LT>;
+    let refs: Vec<F> = g.iter_pidxs().map(|_| f).collect();
+    let (t, _) = RTParserBuilder::<u32, LT>::new(g, st).recoverer(rk).parse_actions(&lexer, &refs, ());
+    fn shape(n: &Node<DefaultLexeme<u32>, u32>) -> String {
+        match n {
+            Node::Term { lexeme } => format!("L {} {}", lexeme.tok_id(), if lexeme.faulty() { lexeme.span().start() + 1_000_000 } else { lexeme.span().start() / STRIDE }),
+            Node::Nonterm { ridx, nodes } => {
+                let ks: Vec<String> = nodes.iter().map(shape).collect();
+                format!("R {} {} {}", usize::from(*ridx), ks.len(), ks.join(" ")).trim().to_string()
+            }
+        }
+    }
+    t.map(|n| shape(&n))
+}
+
 /// A minimal table-driven LR loop over state stacks only, with a step bound: does the plain LR parse
 /// of `toks` finish within `bound` steps? (`Parser::lr` has no bound of its own: a table with a
 /// precedence-resolved conflict on hidden left recursion, or a cyclic grammar, makes it spin.)
